@@ -305,6 +305,16 @@ theorem addPending_last (g : Group) (c : Name) (ids : List Id) :
     · rfl
     · first | rfl | exact hl
 
+theorem addPendingQ_last (q : Quirks) (g : Group) (c : Name) (ids : List Id) :
+    (Code.addPendingQ q g c ids).lastDelivered =
+      match ids.getLast? with
+      | some l => if idLt g.lastDelivered l then l else g.lastDelivered
+      | none => g.lastDelivered := by
+  unfold Code.addPendingQ
+  split
+  · exact addPendingFixed_last g c ids
+  · exact addPending_last g c ids
+
 theorem ackLoop_last (g : Group) (ids : List Id) (n : Nat) :
     (Code.ackLoop g ids n).1.lastDelivered = g.lastDelivered := by
   induction ids generalizing g n with
@@ -340,7 +350,7 @@ theorem readGroup_new (q : Quirks) (stream : List Id) (g : Group) (c : Name) (co
   split
   · rename_i hcond
     refine ⟨rfl, ?_⟩
-    rw [addPending_last]
+    rw [addPendingQ_last]
     cases hl : (rangeAfter stream g.lastDelivered count).getLast? with
     | none => rfl
     | some l => simp [hlast l hl]
